@@ -29,6 +29,8 @@ def args_for(unit, failure, tier='quick'):
         return ['c10-mixed']
     if unit == 'U-RESOLVE':
         return ['c10-resolve']
+    if unit == 'U-PATHS':
+        return ['c10-paths']
     if unit.startswith('kani:contains_type_path') or unit == 'U-CONTAINS':
         return ['c11-contains']
     if unit == 'U-VALIDATE':
